@@ -1,10 +1,12 @@
 (* Properties_C14.v — C14: GenBank and GFF3 descriptions of the same genes give the same mutations. *)
 From GF Require Import Base Alphabet Symbols FastaModel CodonModel RegionsModel.
 
-(* For every feature (forward or reverse strand, any number of segments, any codon_start), the ordered
-   position list derived on the GenBank path - both for complement(join(...)) and for
-   join(complement(...),...) - equals the one derived on the GFF3 path from the equivalent rows. *)
-Theorem C14_positions_gb_eq_gff : forall f,
+(* For every feature (forward or reverse strand, any number of segments listed in ascending order, any codon_start), the
+   ordered position list derived on the GenBank path - both for complement(join(...)) and for
+   join(complement(...),...) - equals the one derived on the GFF3 path from the equivalent rows.  (A join that lists its
+   segments in another order - a gene across the origin of a circular genome - has no equivalent in plain GFF3 rows,
+   whose order carries no meaning: see C14_gff_row_order_irrelevant.) *)
+Theorem C14_positions_gb_eq_gff : forall f, segs_ascending (f_segs f) ->
   gb_positions_form0 f = gff_positions f /\ gb_positions_form1 f = gff_positions f.
 Proof. exact positions_gb_eq_gff. Qed.
 Print Assumptions C14_positions_gb_eq_gff.
@@ -12,18 +14,25 @@ Print Assumptions C14_positions_gb_eq_gff.
 (* a consistent annotation - the GenBank /translation is what the CDS translates to (stop excluded) - gives the SAME region
    (name, strand, ordered positions, residues) on the GenBank path, in either spelling of a reverse-strand join, and on
    the GFF3 path, which recomputes the residues from the reference bases at those positions *)
-Theorem C14_regions_gb_eq_gff : forall genome f translation form1,
+Theorem C14_regions_gb_eq_gff : forall genome f translation form1, segs_ascending (f_segs f) ->
   gff_translation genome f = Ok (translation ++ [42%N]) -> region_gff genome f = Ok (region_gb form1 f translation).
 Proof. exact regions_gb_eq_gff. Qed.
 Print Assumptions C14_regions_gb_eq_gff.
 
 (* hence, for every list of coding features, the two descriptions hand identical region lists to the variant caller
    (which is one function of the rows and the regions: C04, C05), so the mutations are the same, in the same order *)
-Theorem C14_region_lists_gb_eq_gff : forall genome fs trs forms, length trs = length fs -> length forms = length fs ->
+Theorem C14_region_lists_gb_eq_gff : forall genome fs, Forall (fun f => segs_ascending (f_segs f)) fs ->
+  forall trs forms, length trs = length fs -> length forms = length fs ->
   (forall k, (k < length fs)%nat -> gff_translation genome (nth k fs {| f_name := []; f_rev := false; f_segs := []; f_cstart := 1 |}) = Ok (nth k trs [] ++ [42%N])) ->
   map (region_gff genome) fs = map (@Ok aregion) (map (fun x => region_gb (fst (fst x)) (snd (fst x)) (snd x)) (combine (combine forms fs) trs)).
 Proof. exact region_lists_gb_eq_gff. Qed.
 Print Assumptions C14_region_lists_gb_eq_gff.
+
+(* D15 (repaired): the GFF3 path does not depend on the order in which the rows of one feature are listed in the file *)
+Theorem C14_gff_row_order_irrelevant : forall f f', Permutation.Permutation (f_segs f) (f_segs f') -> NoDup (map fst (f_segs f)) ->
+  f_rev f = f_rev f' -> f_cstart f = f_cstart f' -> gff_positions f = gff_positions f'.
+Proof. exact gff_row_order_irrelevant. Qed.
+Print Assumptions C14_gff_row_order_irrelevant.
 
 (* D14 (repaired): the rule "reverse iff first position > last position", which the GenBank path used for the strand before
    the repair, disagrees with the annotation's strand on joins listed in descending order, in both directions *)
